@@ -30,7 +30,49 @@ pub fn layout_of(ty: &AirType) -> TypeLayout {
     }
 }
 
+/// A struct definition that cannot be laid out.
+#[derive(Debug, Clone, PartialEq, Eq)]
+pub enum LayoutError {
+    /// `name` contains itself by value through `field`
+    InfiniteSize { name: String, field: String },
+    /// by-value cycle through several structs
+    RecursiveCycle { names: Vec<String> },
+    /// a struct used by value that is not defined
+    UnresolvedStruct { name: String },
+}
+
+impl std::fmt::Display for LayoutError {
+    fn fmt(&self, f: &mut std::fmt::Formatter<'_>) -> std::fmt::Result {
+        match self {
+            LayoutError::InfiniteSize { name, field } => write!(
+                f,
+                "struct `{name}` has infinite size: field `{field}` contains `{name}` by value"
+            ),
+            LayoutError::RecursiveCycle { names } => {
+                write!(f, "recursive struct cycle: {}", names.join(" <-> "))
+            }
+            LayoutError::UnresolvedStruct { name } => {
+                write!(
+                    f,
+                    "struct `{name}` referenced before its layout is computed"
+                )
+            }
+        }
+    }
+}
+
+impl std::error::Error for LayoutError {}
+
+/// Panicking form of [`try_compute_layouts`], for callers that construct the program themselves.
 pub fn compute_layouts(program: &mut AirProgram) {
+    if let Err(e) = try_compute_layouts(program) {
+        panic!("{e}");
+    }
+}
+
+/// Fills in the field offsets of every struct, or reports the definition that has no layout.
+/// On error the program is left unchanged.
+pub fn try_compute_layouts(program: &mut AirProgram) -> Result<(), LayoutError> {
     let name_to_idx: HashMap<String, usize> = program
         .structs
         .iter()
@@ -38,46 +80,56 @@ pub fn compute_layouts(program: &mut AirProgram) {
         .map(|(i, s)| (s.name.clone(), i))
         .collect();
 
-    detect_self_references(&program.structs);
-    let order = topological_order(&program.structs, &name_to_idx);
+    detect_self_references(&program.structs)?;
+    let order = topological_order(&program.structs, &name_to_idx)?;
 
     let mut resolved: HashMap<String, TypeLayout> = HashMap::new();
+    let mut computed: Vec<(usize, Vec<u32>)> = Vec::with_capacity(order.len());
 
     for idx in order {
-        let (total, offsets) = struct_layout(&program.structs[idx], &resolved);
+        let (total, offsets) = struct_layout(&program.structs[idx], &resolved)?;
         resolved.insert(program.structs[idx].name.clone(), total);
+        computed.push((idx, offsets));
+    }
+
+    for (idx, offsets) in computed {
         for (i, off) in offsets.into_iter().enumerate() {
             program.structs[idx].fields[i].offset = Some(off);
         }
     }
+    Ok(())
 }
 
-fn resolved_layout(ty: &AirType, structs: &HashMap<String, TypeLayout>) -> TypeLayout {
+fn resolved_layout(
+    ty: &AirType,
+    structs: &HashMap<String, TypeLayout>,
+) -> Result<TypeLayout, LayoutError> {
     match ty {
-        AirType::Struct(name) => *structs
+        AirType::Struct(name) => structs
             .get(name.as_str())
-            .unwrap_or_else(|| panic!("struct `{name}` referenced before its layout is computed")),
+            .copied()
+            .ok_or_else(|| LayoutError::UnresolvedStruct { name: name.clone() }),
         AirType::Array(inner, n) => {
-            let el = resolved_layout(inner, structs);
-            TypeLayout {
+            let el = resolved_layout(inner, structs)?;
+            Ok(TypeLayout {
                 size: el.size * (*n as u32),
                 align: el.align,
-            }
+            })
         }
-        other => layout_of(other),
+        other => Ok(layout_of(other)),
     }
 }
 
 fn struct_layout(
     def: &AirStructDef,
     resolved: &HashMap<String, TypeLayout>,
-) -> (TypeLayout, Vec<u32>) {
+) -> Result<(TypeLayout, Vec<u32>), LayoutError> {
     let mut offset: u32 = 0;
     let mut max_align: u32 = 1;
     let mut offsets = Vec::with_capacity(def.fields.len());
 
     for field in &def.fields {
-        let fl = resolved_layout(&field.ty, resolved);
+        let fl = resolved_layout(&field.ty, resolved)?;
         offset = align_to(offset, fl.align);
         offsets.push(offset);
         offset += fl.size;
@@ -88,24 +140,25 @@ fn struct_layout(
         size: align_to(offset, max_align),
         align: max_align,
     };
-    (total, offsets)
+    Ok((total, offsets))
 }
 
 fn align_to(offset: u32, align: u32) -> u32 {
     (offset + align - 1) & !(align - 1)
 }
 
-fn detect_self_references(structs: &[AirStructDef]) {
+fn detect_self_references(structs: &[AirStructDef]) -> Result<(), LayoutError> {
     for def in structs {
         for field in &def.fields {
             if references_by_value(&field.ty, &def.name) {
-                panic!(
-                    "struct `{}` has infinite size: field `{}` contains `{}` by value",
-                    def.name, field.name, def.name
-                );
+                return Err(LayoutError::InfiniteSize {
+                    name: def.name.clone(),
+                    field: field.name.clone(),
+                });
             }
         }
     }
+    Ok(())
 }
 
 fn references_by_value(ty: &AirType, target: &str) -> bool {
@@ -126,7 +179,10 @@ fn field_struct_deps(ty: &AirType, deps: &mut HashSet<String>) {
     }
 }
 
-fn topological_order(structs: &[AirStructDef], name_to_idx: &HashMap<String, usize>) -> Vec<usize> {
+fn topological_order(
+    structs: &[AirStructDef],
+    name_to_idx: &HashMap<String, usize>,
+) -> Result<Vec<usize>, LayoutError> {
     let n = structs.len();
     let mut in_degree = vec![0u32; n];
     let mut dependents: Vec<Vec<usize>> = vec![vec![]; n];
@@ -159,12 +215,12 @@ fn topological_order(structs: &[AirStructDef], name_to_idx: &HashMap<String, usi
     }
 
     if order.len() != n {
-        let cycle: Vec<&str> = (0..n)
+        let names: Vec<String> = (0..n)
             .filter(|&i| in_degree[i] > 0)
-            .map(|i| structs[i].name.as_str())
+            .map(|i| structs[i].name.clone())
             .collect();
-        panic!("recursive struct cycle: {}", cycle.join(" <-> "));
+        return Err(LayoutError::RecursiveCycle { names });
     }
 
-    order
+    Ok(order)
 }
